@@ -57,6 +57,15 @@ CHECKS = {
                  "they advertise. numpy's vectorised evaluation is trusted.",
         "note": NOTE,
     },
+    "C11": {
+        "technique": "CFG dominance and must-raise queries on the FixedArray gate and the Curve length check (every path to the store passes the "
+                     "rejecting test); who-may-write enumeration of _dimension/_image/_domain; def-use terms for forwarded dimensions and units",
+        "level": "For every construction route and every chain of copies / ChangingIndex / setter calls: nothing is stored before the guards ran "
+                 "(dimension >= 2 on the stored dimension, len(values) == dimension, equal image/domain lengths of the new pair), the guards "
+                 "cannot be passed by a violating input (must-raise, no other normal exit), every route forwards the right dimension, and "
+                 "no other code writes the guarded fields - so a rejected attempt changes nothing and an accepted one satisfies the invariant.",
+        "note": NOTE,
+    },
     "C13": {
         "technique": "who-may-write enumeration of value-object state; provenance/ownership abstract interpretation over every mutation sink "
                      "of the library with call-site obligations (fresh vs. operand-owned, two container levels); must-return-self of copy hooks; "
